@@ -573,7 +573,13 @@ impl CanonicalizeContext {
 		// debug!("Not chemistry -- retry:\n{}", mml_to_string(&mathml));
 		let mut converted_mathml = self.canonicalize_mrows(mathml)
 				.chain_err(|| format!("while processing\n{}", mml_to_string(&mathml)))?;
-		if !crate::chemistry::scan_and_mark_chemistry(converted_mathml) {
+		#[cfg(mathcat_verif)]
+		let verif_rows_before = crate::verif::count_added_rows(converted_mathml);
+		let is_chemistry_scan_done = crate::chemistry::scan_and_mark_chemistry(converted_mathml);
+		#[cfg(mathcat_verif)]
+		crate::verif::emit("chem_scan", &[("reparse", (!is_chemistry_scan_done).to_string()), ("rows_before", verif_rows_before.to_string()),
+				("rows_after", crate::verif::count_added_rows(converted_mathml).to_string())]);
+		if !is_chemistry_scan_done {
 			// debug!("canonicalize before canonicalize_mrows:\n{}", mml_to_string(&converted_mathml));
 			self.assure_nary_tag_has_one_child(converted_mathml);
 			converted_mathml = self.canonicalize_mrows(mathml)
